@@ -23,11 +23,19 @@ def _config(sc, outdir=None):
            "optimizer": {"method": "rvscript/script", "options": {"script": script}},
            "nonlinear_constraints": {"lower_bounds": [-np.inf], "upper_bounds": [0.0]},
            "gradient": {"number_of_perturbations": P, "perturbation_magnitudes": 0.001}}
+    if _bound_only(sc):
+        # the same infeasibility through a variable bound: no constraints of any kind, the second variable must stay <= 0
+        del cfg["nonlinear_constraints"]
+        cfg["variables"]["upper_bounds"] = [np.inf, 0.0, np.inf]
     if sc["maxfun"]:
         cfg["optimizer"]["max_functions"] = sc["maxfun"]
     if sc.get("redir"):
         cfg["optimizer"].update({"output_dir": outdir, "stdout": "optimizer.out", "stderr": "optimizer.err"})
     return cfg
+
+
+def _bound_only(sc):
+    return (len(sc["script"]) + sc["maxfun"] + sc["runs"] + sc["nR"]) % 2 == 1
 
 
 class _Sink:
@@ -76,7 +84,7 @@ def drive(sc):
             log = _run(sc, sink, outdir)
         for i, e in enumerate(log):
             e["dest"] = sink.dest(i)
-    trace = [dict(sc)] + log
+    trace = [dict(sc, bound_only=_bound_only(sc))] + log
     key = [sc["script"], sc["abortAt"], sc["maxfun"], sc["runs"], sc["nA"], sc["nR"], sc["lateR"], sc["redir"], sc["tolnone"]]
     return trace, {"nontrivial": len(sc["script"]) > 0, "key": key, "runs": sc["runs"], "events": len(log)}
 
@@ -93,7 +101,7 @@ def _run(sc, sink, outdir):
         ev("Eval", n=int(variables.shape[0]), obj=int(round(float(variables[0, 0]))))
         objs = variables[:, :1].copy()
         objs[variables[:, 2] > 0.5] = np.nan
-        return EvaluatorResult(objectives=objs, constraints=variables[:, 1:2].copy())
+        return EvaluatorResult(objectives=objs, constraints=None if _bound_only(sc) else variables[:, 1:2].copy())
 
     def abort_cb():
         state["acalls"] += 1
@@ -166,7 +174,8 @@ def model_runs(tier, size="full"):
 
 ATTACH = {"spec": "Basic.tla", "trace_module": "Trace_Basic", "model_runs": model_runs, "chunk": 1500}
 # clause prefixes by owning property
-C12_CLAUSES = ("basic_optimizer_does_not_report", "basic_variables_are_not")
+C12_CLAUSES = ("basic_optimizer_does_not_report", "basic_optimizer_reports_an_infeasible", "basic_variables_are_not")
+C13_CLAUSES = ("basic_optimizer_reports_an_infeasible",)
 C14_CLAUSES = ("basic_exit_code", "run_return_expected")
 C15_CLAUSES = ("abort_callback", "results_callback", "evaluator_call", "evaluator_rows", "evaluator_called", "trace_ends", "events_after",
                "exception", "optimizer_request", "output_", "optimizer_output", "basic_exit_code_expected_abort")
